@@ -21,6 +21,9 @@ CONSTANTS Facts,     \* name -> [hasRounds, P, greedy]
           Cats       \* category names, "none" included
 
 AllNames == DOMAIN Facts
+\* option holders: every scheme plus the wildcard "all" (bare `vary_rounds = ..` is stored there; the export spells it
+\* all__vary_rounds).  Only the vary_rounds fields of "all" are modelled; schemes without a cost parameter ignore it.
+OptNames == AllNames \cup {"all"}
 Names(cfg) == {cfg.schemes[i] : i \in 1..Len(cfg.schemes)}
 
 \* ---- option inheritance ----------------------------------------------------------
@@ -48,7 +51,12 @@ Merge(a, b) == [minA |-> IF b.minA # Unset THEN b.minA ELSE a.minA, minB |-> Uns
                 def  |-> IF b.def # Unset THEN b.def ELSE a.def, rounds |-> Unset,
                 varyK |-> IF b.varyK # "unset" THEN b.varyK ELSE a.varyK,
                 varyV |-> IF b.varyK # "unset" THEN b.varyV ELSE a.varyV]
-Opts(cfg, s, cat) == IF cat = "none" THEN cfg.opts[<<"none", s>>] ELSE Merge(cfg.opts[<<"none", s>>], cfg.opts[<<cat, s>>])
+VaryOnly(k) == [NoKw EXCEPT !.varyK = k.varyK, !.varyV = k.varyV]
+AllOpt(cfg, cat) == IF cat = "none" THEN VaryOnly(cfg.opts[<<"none", "all">>])
+                    ELSE Merge(VaryOnly(cfg.opts[<<"none", "all">>]), VaryOnly(cfg.opts[<<cat, "all">>]))
+\* inheritance order: all/default category, all/category, scheme/default category, scheme/category
+Opts(cfg, s, cat) == LET g == IF Facts[s].hasRounds THEN AllOpt(cfg, cat) ELSE NoKw IN
+                     IF cat = "none" THEN Merge(g, cfg.opts[<<"none", s>>]) ELSE Merge(Merge(g, cfg.opts[<<"none", s>>]), cfg.opts[<<cat, s>>])
 
 \* the customised hasher of scheme s for category cat: <<"ok", rounds record>> or an error
 Record(cfg, s, cat) ==
